@@ -4,6 +4,7 @@ package main
 // compare with the committed baseline, replay failures, write evidence.
 
 import (
+	"go/ast"
 	"sync"
 	"encoding/json"
 	"flag"
@@ -704,4 +705,22 @@ func lastLines(s string, n int) string {
 		ls = ls[len(ls)-n:]
 	}
 	return strings.Join(ls, "\n")
+}
+
+// contractHasModifies: the contract declares a frame (modifiesTail / modifiesElems / ...), i.e. the
+// function may overwrite memory reachable from its inputs.
+func contractHasModifies(k *FuncInfo) bool {
+	if k == nil || k.Decl == nil || k.Decl.Body == nil {
+		return false
+	}
+	found := false
+	ast.Inspect(k.Decl.Body, func(n ast.Node) bool {
+		if call, ok := n.(*ast.CallExpr); ok {
+			if id, ok := call.Fun.(*ast.Ident); ok && strings.HasPrefix(id.Name, "modifies") {
+				found = true
+			}
+		}
+		return !found
+	})
+	return found
 }
